@@ -13,6 +13,7 @@ import Simfile.Model.Group
 import Simfile.Model.Engine
 import Simfile.Model.Load
 import Simfile.Model.Entry
+import Simfile.Model.EndToEnd
 import Simfile.Model.Msd
 import Simfile.Model.MsdParser
 import Simfile.Model.Source
@@ -453,6 +454,11 @@ def handle (j : Json) : R Json := do
                       ("files", jArr (fun (pc : Str × Content) => Json.arr #[jStr pc.1, jContent pc.2]) fs1)])
   | "obj.text_sm" => pure (jStr (MsdP.msd.renderDoc (serSM (← getSM (← field j "sf")))))
   | "obj.text_ssc" => pure (match serSSC (← getSSC (← field j "sf")) with | .ok is => jStr (MsdP.msd.renderDoc is) | .error _ => Json.null)
+  | "e2e.time_notes" =>
+    let f := fun (r : Rat × Note) => Json.arr #[jRat r.1, jNote r.2]
+    pure (match timeNotesOfText (← getStr (← field j "text")) (← getNat (← field j "chart")) (← getUnhittable (← field j "opt")) with
+      | .ok l => jOk (jArr f l)
+      | .error e => jErr (match e with | .parse => "parse" | .load => "load" | .noChart => "noChart" | .timing => "timing" | .notes => "notes"))
   | "entry.load" =>
     -- end-to-end model of loading: the modelled msdparser as tokenizer, the entry-point plumbing, the loading rules
     let tok : Bool → Str → Tokens := fun st t => (MsdP.parse st t).getD { params := [], strayError := false }
